@@ -20,7 +20,7 @@ vars == <<l, st, viol>>
 Ev == Trace[l]
 IsEvent(k) == l <= Len(Trace) /\ Ev.ev = k /\ l' = l + 1
 
-Known == {"Reset", "Planned", "ApplyCall", "ApplyRet", "Emit", "Proc", "TxTag", "StoreSet", "Open", "Teardown", "SrcAck", "Durable",
+Known == {"Reset", "Planned", "ApplyCall", "ApplyRet", "Emit", "Proc", "TxTag", "StoreSet", "TxCommit", "Open", "Teardown", "SrcAck", "Durable",
           "End", "Hang", "Panic", "HarnessError", "ChildTimeout"}
 
 Empty == [scen |-> "", srcs |-> {}, feats |-> {}, live |-> <<>>, acked |-> <<>>, stored |-> <<>>, provTx |-> {},
@@ -124,14 +124,17 @@ TxTag ==
   /\ st' = IF Ev.by = "prov" THEN [st EXCEPT !.provTx = @ \cup {Ev.tx}] ELSE st
   /\ UNCHANGED viol
 
-\* a configuration write of the apply's transactional import
-StoreSet ==
-  /\ IsEvent("StoreSet")
+\* the apply's transactional import takes effect at its commit: at that moment the pipeline must have been drained
+\* (every plugin torn down, acknowledged positions durable) - unless the plan is processor-only (in-place swap).
+\* Writes of a transaction that is discarded change nothing.
+StoreSet == IsEvent("StoreSet") /\ UNCHANGED <<st, viol>>
+TxCommit ==
+  /\ IsEvent("TxCommit")
   /\ UNCHANGED st
-  /\ IF Ev.tx \in st.provTx /\ InFlight # {}
+  /\ IF Ev.ok /\ Ev.tx \in st.provTx /\ InFlight # {} /\ Ev.keys > 0
        THEN LET inplace == \E aid \in InFlight : st.plans[st.cur[aid].pid].live IN
             viol' = viol \cup Add(inplace \/ (AllDown /\ PositionsDurable), "DrainedBeforeMutate",
-                                  <<Ev.class, Ev.id, "live plugins", ~AllDown, "positions durable", PositionsDurable>>)
+                                  <<"configuration committed", "live plugins", ~AllDown, "positions durable", PositionsDurable>>)
        ELSE UNCHANGED viol
 
 Open ==
@@ -163,7 +166,7 @@ Panic == IsEvent("Panic") /\ viol' = viol \cup {V("NoPanic", Ev.stderr)} /\ UNCH
 HarnessError == (IsEvent("HarnessError") \/ IsEvent("ChildTimeout")) /\ st' = [st EXCEPT !.bad = TRUE] /\ UNCHANGED viol
 Other == l <= Len(Trace) /\ Ev.ev \notin Known /\ l' = l + 1 /\ UNCHANGED <<st, viol>>
 
-Next == Reset \/ Planned \/ ApplyCall \/ ApplyRet \/ Emit \/ Proc \/ TxTag \/ StoreSet \/ Open \/ Teardown \/ SrcAck \/ Durable
+Next == Reset \/ Planned \/ ApplyCall \/ ApplyRet \/ Emit \/ Proc \/ TxTag \/ StoreSet \/ TxCommit \/ Open \/ Teardown \/ SrcAck \/ Durable
         \/ End \/ Hang \/ Panic \/ HarnessError \/ Other
 Spec == Init /\ [][Next]_vars
 WellFormed == ~st.bad
